@@ -36,6 +36,9 @@ CLAIMED["C08"] = ("exploration", "crossed enumeration of leak site x area/Cd x a
 CLAIMED["C14"] = ("model_checking", "explicit-state breadth-first search over edit histories of the real WaterNetworkModel (3 start states, depth 3-4 quick / 4-6 thorough), canonical-state deduplication, plain-dict reference model deciding enabledness, expected refusal and every public view in every state",
     "every well-formed history of add/remove/reassign operations over a 3-node/2-link/pattern/3-curve/source/control alphabet up to the depth bound is executed on the real model; in every reached state all name lists, counts, typed iterators, describe(), link end nodes (incl. object identity), get_links_for_node, to_graph and the usage/orphaned/unused records of the node, pattern and curve registries are compared with a reference; removals of in-use elements must be refused and leave every view unchanged",
     "histories longer than the bound, more than 3 nodes / 2 links, and ill-formed calls (duplicate names, dangling references) are not covered")
+CLAIMED["C15"] = ("model_checking", "exhaustive enumeration of expression trees (<=2 operators over the full operator/leaf alphabet, 3-4 over reduced ones) and of conditional constraints on a value grid against a dual-number reference, plus explicit-state BFS over add/remove/set-value/set_structure histories of a constraint pool with shared leaves and sub-expressions",
+    "every tree of the stated alphabets is built through the library's operator overloading, compiled, and its residual and Jacobian row are compared at 36 grid points with an independent dual-number evaluation and with the library's direct Python evaluation; conditional constraints are probed at, below and above every bound; every history of the pool up to the depth bound is replayed on a real Model and residual length, index permutation, get_x, residuals and Jacobian are compared in every state",
+    "expressions with more operators, other leaf values and points of discontinuity are not covered; C++ and Python sources are both rebuilt from the tree")
 NOT_YET = "check not built yet in this session (work in progress, see DESIGN.md section 4)"
 
 
